@@ -205,9 +205,9 @@ fn calc_single(ty: Intern<Ty>, ptr_ty: types::Type) {
             calc_single(*sub_ty, ptr_ty);
             sub_ty.get_final_ty()
         }
-        Ty::NaivePolymorphicFunction { .. } => {
-            unreachable!("these shouldn't get to codegen")
-        }
+        // a generic function is never compiled itself, but its type is in the type tables while
+        // a comptime block is evaluated in the middle of inference. (the layout is pointer-sized too)
+        Ty::NaivePolymorphicFunction { .. } => FinalTy::Pointer(ptr_ty),
         Ty::ConcreteFunction {
             param_tys,
             return_ty,
